@@ -125,6 +125,8 @@ def features(doc):
                     f.add("multi_par")
                 if "e" in ps:
                     f.add("empty_par")
+                if "s" in ps:
+                    f.add("inline_markup")
                 for i in c:
                     if is_table(i):
                         tab(i, depth + 1)
@@ -183,7 +185,7 @@ class Run:
         self.mod = loader.module(rel, repo)
         self.reg = Registry()
         ET.install(self.reg)
-        self.reg.ext_models["str.strip"] = lambda ex, st, args, kw, node: [(st, VStr(STRIP(args[0].t)))] if len(args) == 1 else ex.havoc_call(st, "strip(chars)", [], node)
+        install_str_models(self.reg)
         install(self.reg)
         self.ex = C13Executor(self.mod, self.reg, Universe(repo))
         self.ex.oid_prefix = "bounded"
@@ -204,6 +206,19 @@ class Run:
         rets = [(o.st, o.val if o.kind == "return" else NONE) for o in outs if o.kind in ("fall", "return")]
         raises = [(o.st, o.val) for o in outs if o.kind == "raise"] + list(sink)
         return rets, raises
+
+    def method(self, st, me, cls, name, args):
+        """call a method of the object `me` (class `cls` of this module) in state st -> ([states], [(state, exc)])"""
+        ex = self.ex
+        fnode = self.mod.functions[f"{cls}.{name}"]
+        env = ex.bind_params(fnode, args, {}, fnode, self_val=me)
+        st.frames = [Frame({}, None, None)]
+        ex.sinks.append([])
+        try:
+            res = ex.run_body(st, fnode, env, None)
+        finally:
+            sink = ex.sinks.pop()
+        return [s for (s, _v) in res], list(sink)
 
 
 def to_py(st, v):
@@ -246,6 +261,15 @@ def term_eq(a, b):
         return a == b
     except Exception:  # noqa
         return z3.BoolVal(False)
+
+
+def show(x):
+    if x is None or isinstance(x, tuple):
+        return repr(x)
+    try:
+        return " ".join(str(z3.simplify(x)).split())
+    except Exception:  # noqa
+        return repr(x)
 
 
 class Tally:
@@ -305,7 +329,7 @@ def compare(tally, st_pc, got, want, shape, feats):
                 s_, dt = holds(st_pc, term_eq(g[ri][ci], w[ri][ci]))
                 secs += dt
                 if s_ == "refuted" and cells_status != "refuted":
-                    cells_status, cdetail = "refuted", f"table {ti} cell ({ri},{ci}) returned {z3.simplify(g[ri][ci]) if not isinstance(g[ri][ci], (tuple, type(None))) else g[ri][ci]}, source cell text {z3.simplify(w[ri][ci])}"[:300]
+                    cells_status, cdetail = "refuted", f"table {ti} cell ({ri},{ci}) returned {show(g[ri][ci])}, source cell holds {show(w[ri][ci])}"[:300]
                 elif s_ == "unknown" and cells_status == "proved":
                     cells_status, cdetail = "unknown", f"table {ti} cell ({ri},{ci}) undecided"
     tally.record(CLAUSES[2], "proved" if shape_ok else "refuted", shape, feats, detail)
@@ -468,4 +492,521 @@ def w_pptx(repo, tier):
     return run_walker("C13/pptx_extractor.py::_extract_table_from_graphic_frame", PPTX, shapes, one)
 
 
-WALKERS = [w_docx, w_odt, w_odp, w_pptx]
+# ================================================================= HTML / EPUB ==
+def mk_strip(t):
+    """str.strip() with the assumed algebra: idempotent, and whitespace-collapsing a stripped string leaves it stripped."""
+    if z3.is_string_value(t):
+        return z3.StringVal(t.as_string().strip())
+    if z3.is_app(t) and t.decl().eq(STRIP):
+        return t
+    if z3.is_app(t) and t.decl().eq(WSSUB) and z3.is_app(t.arg(0)) and t.arg(0).decl().eq(STRIP):
+        return t
+    return STRIP(t)
+
+
+def mk_wssub(t):
+    import re
+    if z3.is_string_value(t):
+        return z3.StringVal(re.sub(r"\s+", " ", t.as_string()))
+    return WSSUB(t)
+
+
+def NORM(t):
+    """HTML whitespace normalisation of a cell text: strip, runs of whitespace -> one space"""
+    return mk_wssub(mk_strip(z3.simplify(t)))
+
+
+WORDS_SORT = ext_sort("Words")
+WORDS = z3.Function("str_split_ws", S, WORDS_SORT)
+
+
+def install_str_models(reg):
+    reg.ext_models["str.strip"] = lambda ex, st, args, kw, node: [(st, VStr(mk_strip(z3.simplify(args[0].t))))] if len(args) == 1 else ex.havoc_call(st, "strip(chars)", [], node)
+
+    def m_split(ex, st, args, kw, node):
+        if len(args) != 1:
+            return ex.havoc_call(st, "str.split(sep)", [], node)
+        return [(st, VExt("Words", WORDS(args[0].t)))]
+
+    def m_join(ex, st, args, kw, node):
+        sep, it = args[0], args[1]
+        if isinstance(it, VExt) and it.sort == "Words" and sep.const() == " " and z3.is_app(it.t) and it.t.decl().eq(WORDS):
+            # " ".join(s.split()) == strip + collapse whitespace runs (ASSUMED, checked natively by the replayer)
+            return [(st, VStr(mk_wssub(mk_strip(it.t.arg(0)))))]
+        return [(st, VStr(z3.String(fresh_name("join"))))]
+    reg.ext_models["str.split"] = m_split
+    reg.ext_models["str.join"] = m_join
+    reg.method_models[("RegexWS", "sub")] = lambda ex, st, o, a, k, n: [(st, VStr(mk_wssub(z3.simplify(a[1].t))))] if len(a) == 2 and isinstance(a[0], VStr) and a[0].const() == " " and isinstance(a[1], VStr) else ex.havoc_call(st, "re.sub", [], n)
+
+
+def html_rule(cell, path):
+    """cell text: the cell's own paragraphs (block children) separated by white space, inline pieces of a paragraph
+    run together, the whole whitespace-normalised"""
+    parts = []
+    for ii, it in enumerate(cell):
+        if is_table(it):
+            continue
+        ip = f"{path}i{ii}"
+        parts.append(z3.Concat(txt(ip + "a"), txt(ip + "b")) if it == "s" else par_text(it, ip))
+    return NORM(join_terms(z3.StringVal(" "), parts))
+
+
+def html_leaves(doc):
+    out = []
+
+    def tab(t, path):
+        for ri, r in enumerate(t["rows"]):
+            for ci, c in enumerate(r):
+                for ii, it in enumerate(c):
+                    ip = f"{path}.r{ri}c{ci}i{ii}"
+                    if is_table(it):
+                        tab(it, ip)
+                    elif it == "s":
+                        out.extend([txt(ip + "a"), txt(ip + "b")])
+                    elif it == "p":
+                        out.append(txt(ip))
+    for bi, b in enumerate(doc):
+        if is_table(b):
+            tab(b, f"b{bi}")
+        else:
+            out.append(txt(f"b{bi}"))
+    return out
+
+
+def html_shapes():
+    cells = ([], ["p"], ["p", "p"])
+    out = [[t] for t in single_tables(True, True, cells, extra_cells=(["s"], ["s", "p"]))]
+    out += [d for d in docs(True) if len(d) > 1]
+    return out
+
+
+def w_html(repo, tier):
+    def inst(reg):
+        install_str_models(reg)
+        reg.module_consts[(HTML, "_RE_WS")] = VExt("RegexWS")
+        reg.add(FnContract(target=f"{HTML}::_HtmlTextExtractor._format_table_as_text", params=[("self", p_unk()), ("table_data", p_unk())],
+                           assumed=True, returns=lambda c: VStr(z3.String(fresh_name("table_text"))), note="text rendering of a table (C02)"))
+    run = Run(HTML, repo, inst)
+    ex = run.ex
+
+    def one(doc):
+        st = State()
+
+        def node(tag, text="", children=()):
+            kids = VRef(st.alloc(HeapObj("list", list(children)), ex.refs))
+            d = {"tag": VStr(tag), "attrs": VRef(st.alloc(HeapObj("dict", {}), ex.refs)), "children": kids,
+                 "text": text if isinstance(text, V) else VStr(text), "tail": VStr("")}
+            return VRef(st.alloc(HeapObj("dict", d), ex.refs))
+
+        def table(t, path):
+            rows = []
+            for ri, r in enumerate(t["rows"]):
+                cells = []
+                for ci, c in enumerate(r):
+                    ctag = "th" if ri < t["hdr"] else "td"
+                    cp = f"{path}.r{ri}c{ci}"
+                    if c == ["p"]:
+                        cells.append(node(ctag, VStr(txt(cp + "i0"))))
+                        continue
+                    items = []
+                    for ii, it in enumerate(c):
+                        ip = f"{cp}i{ii}"
+                        if is_table(it):
+                            items.append(table(it, ip))
+                        elif it == "s":
+                            items.append(node("p", VStr(txt(ip + "a")), [node("b", VStr(txt(ip + "b")))]))
+                        else:
+                            items.append(node("p", VStr(par_text(it, ip))))
+                    cells.append(node(ctag, "", items))
+                rows.append(node("tr", "", cells))
+            if t["hdr"]:
+                rest = rows[t["hdr"]:]
+                rows = [node("thead", "", rows[:t["hdr"]])] + ([node("tbody", "", rest)] if rest else [])
+            return node("table", "", rows)
+        blocks = [table(b, f"b{bi}") if is_table(b) else node("p", VStr(txt(f"b{bi}"))) for bi, b in enumerate(doc)]
+        body = node("body", "", blocks)
+        for t in html_leaves(doc):
+            st.assume(z3.Length(t) > 0)
+        tables = VRef(st.alloc(HeapObj("list", []), ex.refs))
+        me = VRef(st.alloc(HeapObj("obj", {"root": body, "tables": tables, "_node_cache": VExt("MemoCache"), "_single_node_cache": VExt("MemoCache")},
+                                   "_HtmlTextExtractor", fresh=False), ex.refs))
+        rets, raises = run.call("_HtmlTextExtractor._process_node", {"self": me, "node": body, "depth": VInt(0), "include_tail": VBool(False)}, st)
+        want = expected_grids(doc, html_rule)
+        return [(s.pc, to_py(s, s.obj(me.ref).data["tables"]), want) for (s, v) in rets], [(s.pc, e) for (s, e) in raises]
+    return run_walker("C13/html_extractor.py::_HtmlTextExtractor._process_node", HTML, html_shapes(), one)
+
+
+def w_epub(repo, tier):
+    def inst(reg):
+        install_str_models(reg)
+        reg.method_models[("SuperProxy", "__init__")] = lambda ex, st, o, a, k, n: [(st, NONE)]
+    run = Run(EPUB, repo, inst)
+    ex = run.ex
+    cls = "_XhtmlTextExtractor"
+
+    def events(doc):
+        ev = []
+
+        def par(it, ip):
+            ev.append(("s", "p"))
+            if it == "s":
+                ev.extend([("d", txt(ip + "a")), ("s", "b"), ("d", txt(ip + "b")), ("e", "b")])
+            elif it == "p":
+                ev.append(("d", txt(ip)))
+            ev.append(("e", "p"))
+
+        def table(t, path):
+            ev.append(("s", "table"))
+            for ri, r in enumerate(t["rows"]):
+                if t["hdr"] and ri == 0:
+                    ev.append(("s", "thead"))
+                if t["hdr"] and ri == t["hdr"]:
+                    ev.extend([("e", "thead"), ("s", "tbody")])
+                ev.append(("s", "tr"))
+                for ci, c in enumerate(r):
+                    ctag = "th" if ri < t["hdr"] else "td"
+                    cp = f"{path}.r{ri}c{ci}"
+                    ev.append(("s", ctag))
+                    if c == ["p"]:
+                        ev.append(("d", txt(cp + "i0")))
+                    else:
+                        for ii, it in enumerate(c):
+                            if is_table(it):
+                                table(it, f"{cp}i{ii}")
+                            else:
+                                par(it, f"{cp}i{ii}")
+                    ev.append(("e", ctag))
+                ev.append(("e", "tr"))
+            if t["hdr"]:
+                ev.append(("e", "tbody" if len(t["rows"]) > t["hdr"] else "thead"))
+            ev.append(("e", "table"))
+        ev.append(("s", "body"))
+        for bi, b in enumerate(doc):
+            if is_table(b):
+                table(b, f"b{bi}")
+            else:
+                par("p", f"b{bi}")
+        ev.append(("e", "body"))
+        return ev
+
+    def one(doc):
+        st = State()
+        for t in html_leaves(doc):
+            st.assume(z3.Length(t) > 0)
+        me = VRef(st.alloc(HeapObj("obj", {}, cls, fresh=False), ex.refs))
+        states, raises = run.method(st, me, cls, "__init__", [])
+        for kind, arg in events(doc):
+            nxt = []
+            for s in states:
+                if kind == "s":
+                    r, x = run.method(s, me, cls, "handle_starttag", [VStr(arg), VTuple([])])
+                elif kind == "e":
+                    r, x = run.method(s, me, cls, "handle_endtag", [VStr(arg)])
+                else:
+                    r, x = run.method(s, me, cls, "handle_data", [VStr(arg)])
+                nxt.extend(r)
+                raises.extend(x)
+            states = nxt
+        want = expected_grids(doc, html_rule)
+        return [(s.pc, to_py(s, s.obj(me.ref).data["tables"]), want) for s in states], [(s.pc, e) for (s, e) in raises]
+    return run_walker("C13/epub_extractor.py::_XhtmlTextExtractor.handle_starttag+handle_endtag+handle_data", EPUB, html_shapes(), one)
+
+
+# ====================================================================== sheets ==
+# abstract sheet: rows of cell kinds  N empty | s text | i int | f non-integral number | F integral number stored as float
+#                                    b bool | d date-time | "=" text equal to the text of the cell to its left (duplicate header)
+def sheet_shapes(first_kinds, body_kinds, three=True):
+    """1..3 rows x 1..2 columns.  First rows: every combination of the first-row kinds (+ a duplicate name); second rows:
+    every kind in every column, next to every other kind at least once and next to an empty cell on either side."""
+    out = []
+    n = len(body_kinds)
+    pairs = []
+    for a_, k in enumerate(body_kinds):
+        for p_ in ((k, body_kinds[(a_ + 1) % n]), (k, "N"), ("N", k), (k, k)):
+            if p_ not in pairs:
+                pairs.append(p_)
+    for C in (1, 2):
+        firsts = list(itertools.product(first_kinds, repeat=C))
+        if C == 2:
+            firsts.append(("s", "="))
+        for f in firsts:
+            out.append([list(f)])
+            for b in (pairs if C == 2 else [(k,) for k in body_kinds]):
+                out.append([list(f), list(b)])
+    if three:
+        for f in (("s", "s"), ("s", "N"), ("N", "s"), ("s", "=")):
+            for b1 in (("s", "N"), ("N", "N"), (body_kinds[2], "s")):
+                for b2 in (("N", "s"), ("N", "N"), ("s", "s")):
+                    out.append([list(f), list(b1), list(b2)])
+    return out
+
+
+def used_range(sh):
+    r = max([i + 1 for i, row in enumerate(sh) if any(k != "N" for k in row)] + [0])
+    c = max([j + 1 for row in sh for j, k in enumerate(row) if k != "N"] + [0])
+    return r, c
+
+
+def sheet_features(sh):
+    f = set()
+    first = sh[0]
+    if "N" in first:
+        f.add("hdr_empty")
+    if any(k not in ("s", "=", "N") for k in first):
+        f.add("hdr_nontext")
+    if "=" in first or any(first.count(k) > 1 for k in ("N", "i", "F")):
+        f.add("dup_header")          # two first-row cells with the same text (the concrete numbers of a first row are equal)
+    if len(first) > 1 and sum(1 for k in first if k != "N") == 1:
+        f.add("title_row")
+    if len(sh) == 1:
+        f.add("header_only")
+    r, c = used_range(sh)
+    if r < len(sh) or c < len(sh[0]):
+        f.add("trailing_empty")
+    if r == 0:
+        f.add("empty_sheet")
+    for row in sh[1:]:
+        for k in row:
+            f.add({"N": "empty_cell", "s": "text", "i": "int", "f": "float", "F": "float_integral", "b": "bool", "d": "date"}.get(k, k))
+    return sorted(f)
+
+
+ISO_DT = z3.Function("isoformat_DateTime", ext_sort("DateTime"), S)
+
+
+def cell_terms(kind, i, j, first_row_concrete=False):
+    """(source value as engine value, assumptions, expected typed value term or None)"""
+    nm = f"r{i}c{j}"
+    if kind == "N":
+        return NONE, [], None
+    if kind == "s":
+        t = z3.String("s_" + nm)
+        return VStr(t), [z3.Length(t) > 0, mk_strip(t) != z3.StringVal(""), z3.Not(z3.PrefixOf(z3.StringVal("Unnamed: "), t))], t
+    if kind == "=":
+        t = z3.String(f"s_r{i}c{j - 1}")
+        return VStr(t), [], t
+    if kind == "i":
+        t = z3.IntVal(7) if first_row_concrete else z3.Int("i_" + nm)
+        return VInt(t), [], t
+    if kind in ("f", "F"):
+        t = z3.Real("f_" + nm)
+        integral = z3.ToReal(z3.ToInt(t)) == t
+        return ops.lift(t), [integral if kind == "F" else z3.Not(integral)], t
+    if kind == "b":
+        t = z3.Bool("b_" + nm)
+        return VBool(t), [], t
+    if kind == "d":
+        t = z3.Const("d_" + nm, ext_sort("DateTime"))
+        return VExt("DateTime", t), [], ISO_DT(t)
+    raise ValueError(kind)
+
+
+def run_sheets(prefix, loc, shapes, run_one):
+    tally = Tally(prefix, CLAUSES)
+    for sh in shapes:
+        feats = sheet_features(sh)
+        try:
+            rets, raises = run_one(sh)
+        except Unsupported as e:
+            for k in CLAUSES:
+                tally.record(k, "unknown", sh, feats, f"OUT-OF-SUBSET {e}"[:200])
+            continue
+        feas = [r for r in raises if _feasible(r[0])]
+        tally.record(CLAUSES[0], "refuted" if feas else "proved", sh, feats, "an exception can escape" if feas else "")
+        if not rets:
+            for k in CLAUSES[1:]:
+                tally.record(k, "refuted", sh, feats, "no normal outcome")
+        for (pc, got, want) in rets:
+            compare(tally, pc, got, want, sh, feats)
+    return {"obligations": tally.obligations(loc)}
+
+
+def expected_sheet(sh, typed, trim=True):
+    r, c = used_range(sh) if trim else (len(sh), len(sh[0]))
+    return [[[typed(sh[i][j], i, j) for j in range(c)] for i in range(r)]]
+
+
+def w_xlsx(repo, tier):
+    from contracts import C13 as pack
+    sheets = {}
+
+    def inst(reg):
+        pack.install_value_models(reg)
+        reg.add(FnContract(target=f"{XLSX}::_format_sheet_as_text", params=[("all_rows", p_unk())], assumed=True,
+                           returns=lambda c: VStr(z3.String(fresh_name("sheet_text"))), note="text rendering of a sheet (C02)"))
+        reg.method_models[("Worksheet", "iter_rows")] = lambda ex, st, o, a, k, n: [(st, sheets[o.t.get_id()])]
+    run = Run(XLSX, repo, inst)
+
+    def typed(kind, i, j):
+        return cell_terms(kind, i, j, i == 0)[2]
+
+    def one(sh):
+        st = State()
+        rows = []
+        for i, row in enumerate(sh):
+            vals = []
+            for j, k in enumerate(row):
+                v, asm, _ = cell_terms(k, i, j, i == 0)
+                vals.append(v)
+                for a in asm:
+                    st.assume(a)
+            rows.append(VTuple(vals))
+        ws = VExt("Worksheet")
+        sheets[ws.t.get_id()] = VTuple(rows)
+        wb = VRef(st.alloc(HeapObj("dict", {"S": ws}, fresh=False), run.ex.refs))
+        rets, raises = run.call("_read_content_from_workbook", {"wb": wb, "sheet_names": VTuple([VStr("S")])}, st)
+        want = expected_sheet(sh, typed)
+        return [(s.pc, to_py(s, v), want) for (s, v) in rets], [(s.pc, e) for (s, e) in raises]
+    return run_sheets("C13/xlsx_extractor.py::_read_content_from_workbook", XLSX, sheet_shapes(("s", "N", "i"), ("s", "N", "i", "f", "b", "d")), one)
+
+
+def w_xls(repo, tier):
+    from contracts import C13 as pack
+    from contracts import common
+    DTYPES = "sharepoint2text/parsing/extractors/data_types.py"
+    info = {}
+
+    def inst(reg):
+        pack.install_value_models(reg)
+        common.install_bytesio(reg)
+        reg.ext_models[("new", "io.StringIO")] = lambda ex, st, a, k, n: [(st, VExt("StringIO"))]
+        reg.ext_models["xlrd.open_workbook"] = lambda ex, st, a, k, n: [(st, info["book"])]      # ASSUMED: the parsed workbook
+        reg.method_models[("XlBook", "sheets")] = lambda ex, st, o, a, k, n: [(st, VTuple([info["sheet"]]))]
+        reg.attr_models[("XlSheet", "name")] = lambda ex, st, o: VStr("S")
+        reg.attr_models[("XlSheet", "nrows")] = lambda ex, st, o: VInt(len(info["cells"]))
+        reg.attr_models[("XlSheet", "ncols")] = lambda ex, st, o: VInt(len(info["cells"][0]) if info["cells"] else 0)
+        reg.method_models[("XlSheet", "cell")] = lambda ex, st, o, a, k, n: [(st, info["cells"][a[0].const()][a[1].const()])]
+        reg.add(FnContract(target=f"{XLS}::_format_sheet_as_text", params=[("headers", p_unk()), ("rows", p_unk())], assumed=True,
+                           returns=lambda c: VStr(z3.String(fresh_name("sheet_text"))), note="text rendering of a sheet (C02)"))
+    run = Run(XLS, repo, inst)
+    run2 = Run(DTYPES, repo, lambda reg: None)
+    run2.ex.refs = run.ex.refs
+    KIND = {"N": 0, "s": 1, "=": 1, "F": 2, "f": 2, "b": 4}
+    NAMES = {0: "name0", 1: "name1"}
+
+    def typed(kind, i, j):
+        if kind == "N":
+            return None
+        if i == 0 and kind in ("s", "="):
+            return z3.StringVal(NAMES[j if kind == "s" else j - 1])
+        if kind == "F":
+            return z3.ToInt(z3.Real(f"f_r{i}c{j}")) if i else z3.IntVal(7)
+        if kind == "b":
+            return z3.Int(f"b_r{i}c{j}") != 0
+        return cell_terms(kind, i, j)[2]
+
+    def one(sh):
+        st = State()
+        cells = []
+        for i, row in enumerate(sh):
+            cs = []
+            for j, k in enumerate(row):
+                c = VExt("XlCell")
+                if k == "N":
+                    val = VStr("")
+                elif i == 0 and k in ("s", "="):
+                    val = VStr(NAMES[j if k == "s" else j - 1])     # header names concrete: they become dict keys
+                elif k == "F" and i == 0:
+                    val = ops.lift(z3.RealVal(7))
+                elif k == "b":
+                    t = z3.Int(f"b_r{i}c{j}")
+                    st.assume(z3.Or(t == 0, t == 1))
+                    val = VInt(t)
+                else:
+                    val, asm, _ = cell_terms(k, i, j)
+                    for a in asm:
+                        st.assume(a)
+                pack.CELLINFO[c.t.get_id()] = (VInt(KIND[k]), val, k)
+                cs.append(c)
+            cells.append(cs)
+        info.update(book=VExt("XlBook"), sheet=VExt("XlSheet"), cells=cells)
+        rets, raises = run.call("_read_content", {"file_like": VExt("BytesIO")}, st)
+        want = expected_sheet(sh, typed, trim=False)
+        out = []
+        for (s, v) in rets:
+            sheets_ = run.ex.concrete_items(s, v) or []
+            tabs, states = [], [s]
+            if len(sheets_) != 1:
+                out.append((s.pc, ("?", "not one sheet"), want))
+                continue
+            r2, x2 = run2.call("XlsSheet.get_table", {"self": sheets_[0]}, s)
+            raises.extend(x2)
+            for (s2, t) in r2:
+                out.append((s2.pc, [to_py(s2, t)], want))
+        return out, [(s.pc, e) for (s, e) in raises]
+    shapes = [sh for sh in sheet_shapes(("s", "N", "F"), ("s", "N", "F", "f", "b")) if used_range(sh) == (len(sh), len(sh[0]))]
+    return run_sheets("C13/xls_extractor.py::_read_content+XlsSheet.get_table", XLS, shapes, one)
+
+
+def w_ods(repo, tier):
+    OFFICE = ODF_O
+    ATTR = {"vt": OFFICE + "value-type", "v": OFFICE + "value", "dv": OFFICE + "date-value", "bv": OFFICE + "boolean-value"}
+
+    def inst(reg):
+        reg.add(assumed_text(ODS, "_get_text_recursive"))
+        reg.add(FnContract(target=f"{ODS}::_extract_annotations", params=[("cell", p_unk())], assumed=True,
+                           returns=lambda c: VRef(c.st.alloc(HeapObj("list", []), c.ex.refs)), note="cell comments (not part of the grid)"))
+        reg.add(FnContract(target=f"{ODS}::_extract_images", params=[("ctx", p_unk()), ("table", p_unk()), ("image_counter", p_unk())], assumed=True,
+                           returns=lambda c: VTuple([VUnk("images"), c.args["image_counter"]]), note="images (C14)"))
+    run = Run(ODS, repo, inst)
+    CONST = {"i": ("float", "v", "3", z3.IntVal(3)), "f": ("float", "v", "2.5", z3.RealVal("2.5")), "d": ("date", "dv", "2024-01-02", z3.StringVal("2024-01-02")),
+             "b": ("boolean", "bv", "true", z3.BoolVal(True))}
+
+    def typed(kind, i, j):
+        if kind == "N":
+            return None
+        if kind in ("s", "="):
+            return z3.String(f"s_r{i}c{j if kind == 's' else j - 1}")
+        return CONST[kind][3]
+
+    def make(hdr):
+        def one(sh):
+            st = State()
+            rows = []
+            for i, row in enumerate(sh):
+                cells = []
+                for j, k in enumerate(row):
+                    if k == "N":
+                        cells.append(CNode(ODF_T + "table-cell"))
+                    elif k in ("s", "="):
+                        t = typed(k, i, j)
+                        st.assume(z3.Length(t) > 0)
+                        cells.append(CNode(ODF_T + "table-cell", attrib={ATTR["vt"]: VStr("string")}, children=[leaf(ODF_X + "p", t)]))
+                    else:
+                        vt, an, val, _ = CONST[k]
+                        cells.append(CNode(ODF_T + "table-cell", attrib={ATTR["vt"]: VStr(vt), ATTR[an]: VStr(val)}, children=[leaf(ODF_X + "p", z3.String(f"disp_r{i}c{j}"))]))
+                rows.append(CNode(ODF_T + "table-row", children=cells))
+            if hdr:
+                rows = [CNode(ODF_T + "table-header-rows", children=rows[:1])] + rows[1:]
+            table = CNode(ODF_T + "table", attrib={ODF_T + "name": VStr("S")}, children=[CNode(ODF_T + "table-column")] + rows)
+            rets, raises = run.call("_extract_sheet", {"ctx": VUnk("ctx"), "table": table.v, "sheet_number": VInt(1), "image_counter": VInt(0)}, st)
+            want = expected_sheet(sh, typed)
+            out = []
+            for (s, v) in rets:
+                r = to_py(s, v)
+                out.append((s.pc, [r[0]] if isinstance(r, list) and len(r) == 2 else r, want))
+            return out, [(s.pc, e) for (s, e) in raises]
+        return one
+    shapes = sheet_shapes(("s", "N", "i"), ("s", "N", "i", "f", "b", "d"))
+    a = run_sheets("C13/ods_extractor.py::_extract_sheet", ODS, shapes, make(False))
+    # the first row inside table:table-header-rows (rows repeated on every printed page)
+    hshapes = [sh for sh in shapes if len(sh) > 1 and sh[0][0] == "s"][:60]
+    t2 = Tally("C13/ods_extractor.py::_extract_sheet", CLAUSES)
+    b = run_sheets("C13/ods_extractor.py::_extract_sheet", ODS, hshapes, make(True))
+    # merge the header-wrapper variant into the same obligations (feature 'hdr')
+    by = {o["id"]: o for o in a["obligations"]}
+    for o in b["obligations"]:
+        m = by[o["id"]]
+        m["vcs"] += o["vcs"]
+        for f in o["failing"]:
+            f["features"] = sorted(set(f["features"]) | {"hdr"})
+            f["shape"] = {"header_rows_wrapper": 1, "rows": f["shape"]}
+        m["failing"].extend(o["failing"])
+        if o["status"] == "refuted" and m["status"] != "refuted":
+            m.update(status="refuted", reason="with the first row in table:table-header-rows: " + o["reason"], witness={"shape": {"header_rows_wrapper": 1, "rows": o["witness"]["shape"]}, "features": sorted(set(o["witness"]["features"]) | {"hdr"})} if o.get("witness") else None)
+        elif o["status"] == "unknown" and m["status"] == "proved":
+            m.update(status="unknown", reason=o["reason"])
+    return a
+
+
+WALKERS = [w_docx, w_odt, w_odp, w_pptx, w_html, w_epub, w_xlsx, w_xls, w_ods]
